@@ -47,6 +47,14 @@ theorem second_read_cached (E : Env) (f g : Nat) (s s1 : St) (n : Name) (v : Val
 theorem set_equal_is_noop (sw : Bool) (s : St) (p : Name) : setV sw s p (s.pv p) = s := by
   simp [setV]
 
+/-- C13: … and so does any sequence of such re-assignments (e.g. `update(**parameter_values)` on the object
+    itself): the whole cache — values, cleanliness, dependency index — is what it was -/
+theorem reassigning_current_values_is_noop (sw : Bool) (ps : List Name) (s : St) :
+    ps.foldl (fun t p => setV sw t p (t.pv p)) s = s := by
+  induction ps with
+  | nil => rfl
+  | cons p ps ih => rw [List.foldl_cons, set_equal_is_noop]; exact ih
+
 /-- C13: changing parameter `p` leaves untouched (still clean, same cell, same index) every
     quantity not recorded as depending on `p`. -/
 theorem independent_untouched (sw : Bool) (s : St) (p : Name) (v : Val) (m : Name)
